@@ -1,6 +1,6 @@
 (* Props/C14.v — property C14: built-in reports state exactly the facts of the event stream (structure). *)
 From CV Require Import Model.Base Model.Events Model.Contract Model.Stats Model.StatsSpec Model.Reporters Model.ReportersSpec Proofs.BaseP Proofs.ReportersP Proofs.ReportersP2 Proofs.ReportersP3.
-From CV Require Proofs.ReportersP4 Proofs.ReportersP5.
+From CV Require Proofs.ReportersP4 Proofs.ReportersP5 Proofs.Compose Proofs.SchedP4 Proofs.SchedP7 Model.Sched.
 From Coq Require Import Lia.
 
 (* terminal output: at most one line per event; exactly one for a step result, a failed hook, a parser error *)
@@ -236,3 +236,14 @@ Example C14_end_to_end_nonvacuous :
   steps_bracketed (ReportersP5.raw_of ReportersP5.ex5) = false /\
   ReportersP5.rule_of_scen_unique (ReportersP5.raw_of ReportersP5.ex5) = true.
 Proof. vm_compute. repeat split; reflexivity. Qed.
+
+(* FROM THE SCHEDULER TO THE REPORT: the terminal listing of every complete run of the scheduler model (any
+   configuration, any schedule) states exactly the step results, failed hooks and parser errors of the run's own
+   stream — the C03 contract theorem, the C11 theorems and the whole-document theorem composed *)
+Theorem C14_runner_to_terminal_report :
+  forall cf ls s tr (es : list (N * ev)),
+    Sched.exec cf ls = Some (s, tr) -> NoDup (SchedP7.feature_ids ls) -> NoDup (SchedP4.inserted_ids ls) ->
+    Sched.pc s = Sched.Done -> map snd es = tr ->
+    c14_basic_ok tr (basic_lines (ReportersP5.ns_of es)) = true.
+Proof. exact Compose.runner_to_terminal_report. Qed.
+Print Assumptions C14_runner_to_terminal_report.
